@@ -436,6 +436,12 @@ def _write_longstring(file: IO[str], extended: bool, text: str, *, indent: str) 
         if split_pos == (-1 + 1):
             # Not found, just split exactly at the end.
             split_pos = LIMIT
+            # But never in the middle of an escape sequence - the backslash would escape the closing quote.
+            backslashes = 0
+            while backslashes < split_pos and remaining[split_pos - 1 - backslashes] == '\\':
+                backslashes += 1
+            if backslashes % 2:
+                split_pos -= 1
         sections.append(f'"{remaining[:split_pos]}"')
         remaining = remaining[split_pos:]
 
